@@ -323,6 +323,8 @@ def point_list(draw, hi, max_n=5):
         # about the order of coinciding points with different values; equal ones stay two points through any function)
         i = draw(st.integers(0, n - 1))
         out.insert(i + 1, [out[i][0], out[i][1]])
+    elif draw(st.integers(0, 3)) == 0 and out[-1][0] + 2e-9 <= hi:
+        out.append([out[-1][0] + 2e-9, out[-1][1] + 1.0])  # two points two nanoseconds apart are two points
     return out
 
 
